@@ -2515,6 +2515,90 @@ def stage_corr_poly(ctx, env):
                 ctx.coverage["disagreements_checked"] += 1
 
 
+# ====================================================================== integer Conv normaliser (simp_full, int_norm_conv, int_norm_eq)
+def iexp_atoms(t, acc):
+    if t.is_number():
+        return acc
+    if t.is_plus() or t.is_minus() or t.is_times():
+        iexp_atoms(t.arg1, acc)
+        iexp_atoms(t.arg, acc)
+    elif t.is_uminus():
+        iexp_atoms(t.arg, acc)
+    elif t.is_nat_power() and t.arg.is_number():
+        iexp_atoms(t.arg1, acc)
+    else:
+        acc.add(t)
+    return acc
+
+
+def iexp_of(t, ranks):
+    """Integer term as the model reads it (the case list of simp_full, in its order)."""
+    if t.is_number():
+        return ["num", int(t.dest_number())]
+    if t.is_plus():
+        return ["add", iexp_of(t.arg1, ranks), iexp_of(t.arg, ranks)]
+    if t.is_minus():
+        return ["sub", iexp_of(t.arg1, ranks), iexp_of(t.arg, ranks)]
+    if t.is_times():
+        return ["mul", iexp_of(t.arg1, ranks), iexp_of(t.arg, ranks)]
+    if t.is_nat_power() and t.arg.is_number():
+        return ["pow", iexp_of(t.arg1, ranks), int(t.arg.dest_number())]
+    if t.is_uminus():
+        return ["neg", iexp_of(t.arg, ranks)]
+    return ["at", ranks[t], t.size()]
+
+
+def stage_corr_int(ctx, env):
+    """simp_full, int_norm_conv and int_norm_eq against the Lean model IntModel.lean: right-hand sides
+    compared as trees.  Atoms are integer variables (powers only of variables)."""
+    n = ctx.scale(150, 3000)
+    rng = ctx.rng("corr/int")
+    I = env.integer
+    cases, lines = [], []
+    for it in range(n):
+        r = it % 3
+        if r == 0:
+            a = gen_cancel(rng, "int", rng.randint(1, 3))
+        else:
+            a = gen_arith(rng, "int", rng.randint(1, 4), ops="+++***-n^", atoms=False)
+        t = to_term(env, a, "int")
+        b = gen_arith(rng, "int", rng.randint(0, 2), ops="++*-n", atoms=False)
+        t2 = to_term(env, b, "int")
+        atoms = iexp_atoms(t, set()) | iexp_atoms(t2, set())
+        ranks = {x: i for i, x in enumerate(env.term_ord.sorted_terms(list(atoms)))}
+        jobs = [("intsimp", lambda: I.simp_full().get_proof_term(t).prop.rhs, [iexp_of(t, ranks)]),
+                ("intnorm", lambda: I.int_norm_conv().get_proof_term(t).prop.rhs, [iexp_of(t, ranks)])]
+        if it % 2 == 0:
+            eq = env.term.Eq(t, t2)
+            jobs.append(("intnormeq", lambda: I.int_norm_eq().get_proof_term(eq).prop.rhs.arg1, [iexp_of(t, ranks), iexp_of(t2, ranks)]))
+        for op, f, args in jobs:
+            try:
+                with time_limit(30):
+                    rhs = f()
+                extra = iexp_atoms(rhs, set()) - atoms
+                impl = "new-atoms" if extra else sexp.dumps(iexp_of(rhs, ranks))
+            except Timeout:
+                continue
+            except Exception as e:  # noqa
+                impl = "raise:" + type(e).__name__
+            cases.append((op, t, t2, impl))
+            lines.append(sexp.dumps([op] + args))
+    out = ctx.lean_driver(EXE, lines, timeout=1200) if lines else []
+    if out is None:
+        ctx.broken("correspondence:c10:driver", "model driver unavailable")
+        return
+    nd = 0
+    for (op, t, t2, impl), m in zip(cases, out):
+        ctx.case(("int", op, str(tj(t)), str(tj(t2)) if op == "intnormeq" else ""), nontrivial=not t.is_var())
+        agree = impl.replace(" ", "") == m.replace(" ", "")
+        ctx.count("corr:%s:%s" % (op, "agree" if agree else "DISAGREE"))
+        if not agree:
+            nd += 1
+            if nd <= 3:
+                ctx.broken("correspondence:c10:%s" % op, "%s of %s%s: impl=%s model=%s" % (op, t, (" = %s" % t2) if op == "intnormeq" else "", impl[:300], m[:300]))
+                ctx.coverage["disagreements_checked"] += 1
+
+
 # ====================================================================== entry points
 def run(ctx):
     ctx.coverage["rule"] = (
@@ -2554,6 +2638,7 @@ def run(ctx):
     stage_corr_acnorm(ctx, env)
     stage_corr_conv(ctx, env)
     stage_corr_poly(ctx, env)
+    stage_corr_int(ctx, env)
     for s in (stage_corr_natnorm,):
         s(ctx, env)
     ctx.log("correspondence done")
